@@ -66,7 +66,7 @@ class Check(PropCheck):
     def gen_cases(self):
         rng = self.rng
         cases = []
-        n_cases = 1500 if self.tier == 'quick' else 60000
+        n_cases = 1500 if self.tier == 'quick' else 15000
         for k in range(n_cases):
             n = rng.choice([1, 1, 2, 3, 4, 5, 8, 13]) if rng.random() < 0.8 else rng.randint(10, 60 if self.tier == 'quick' else 400)
             lens = rng.choice(['special', 'wildbits', 'exact', 'wild', 'root'])
